@@ -6,10 +6,10 @@ from tools.harness import sqlexec as X
 ID = 'C06'
 TARGETS = ['MindsVerif.Props.C06']
 THEOREMS = ['MindsVerif.Props.C06.' + n for n in (
-    'C06_partial', 'C06_partial_norm', 'C06_dml_partial', 'C06_join_kind', 'C06_join_spelling', 'C06_not_rewrite',
+    'C06_partial', 'C06_partial_norm', 'C06_nested_partial', 'C06_dml_partial', 'C06_join_kind', 'C06_join_spelling', 'C06_not_rewrite',
     'C06_order_key', 'C06_alias', 'C06_window_key', 'C06_grouping', 'C06_regroup_harmless',
     'C06_regress_1', 'C06_regress_2', 'C06_regress_3', 'C06_regress_4', 'C06_regress_5', 'C06_regress_5b', 'C06_regress_6',
-    'C06_regress_9', 'C06_witness_7', 'C06_witness_8',
+    'C06_regress_7', 'C06_regress_9', 'C06_witness_8',
     'phi6_compatible', 'phi6_ids', 'phi6_flip', 'phi6_join_spellings', 'phi6_join_probe')]
 ASSUME = [
     'Render.saNorm / saStmt / SaParen.saParens are hand models of SqlalchemyRender + the SQLAlchemy compiler on the typed fragment; '
